@@ -131,7 +131,7 @@ void exec_c29(const Plan& p, Ctx& ctx) {
                 if (needle.size() > 70 && needle.find(',') != std::string::npos) needle = needle.substr(0, needle.rfind(','));  // drop the ttl column of a chunk entry
                 if (needle.empty()) continue;
                 // a short-lived chunk may expire between the parsed exchange and this independent one: its entry and the count are volatile
-                if (!deadline.empty() && needle.rfind("COUNT:", 0) == 0) continue;
+                if (!deadline.empty() && (needle.rfind("COUNT:", 0) == 0 || needle.rfind("CHUNKS:", 0) == 0)) continue;
                 { bool volatile_entry = false; for (auto& [id, dl] : deadline) if (needle.find(id) != std::string::npos) volatile_entry = true; if (volatile_entry) continue; }
                 if (dump.find(needle) == std::string::npos)
                     ctx.violate("C29.field_content_lost." + command, fmt("%s: the daemon sent '%s' but it is in no field the control client parsed", command.c_str(), needle.substr(0, 90).c_str()));
